@@ -24,7 +24,9 @@ META = dict(
     exhaustive=True,
     bounds=dict(quick='5 lenses (one with fields entered in non-ascending order) x all ordered pairs of 36 query operations + repeats; '
                       '15 sub-batches of a 4-ray batch on every lens for trace_generic and Optic.trace; 15 analysis classes x every '
-                      'history (a, q1..qn) of their read-only queries (data, centroid, rms, strehl, coeffs, view...) on ONE analysis object',
+                      'history (a, q1..qn) of their read-only queries (data, centroid, rms, strehl, coeffs, view...) on ONE analysis object; '
+                      '3 lenses x 8 edits x {every query asked before the edit, one of 10 queries asked before the edit}: every query after the '
+                      'edit equals the same edit + query on a lens that was never queried',
                 thorough='adds all length-3 histories over a 10-operation sub-alphabet (4000) and 4 numeric variants'),
     tolerances=dict(repeat='bit-identical (NaN positions equal)', batch='0 for closed-form surfaces, surface tol for iterative ones'),
     assumptions=['unseeded RandomDistribution is excluded (the property excepts it)'],
@@ -219,6 +221,64 @@ def analysis_objects():
     return A
 
 
+def edits(v):
+    """name -> function(optic): operations whose purpose is to edit the lens."""
+    p = V(v)
+    E = {}
+    E['set_radius'] = lambda o: o.set_radius(1.15 * p['R'], 1)
+    E['set_thickness'] = lambda o: o.set_thickness(p['t'][1] + 1.5, 1)
+    E['set_index'] = lambda o: o.set_index(1.62, 1)
+    E['set_conic'] = lambda o: o.set_conic(-0.4, 1)
+    E['set_aperture'] = lambda o: o.set_aperture(o.aperture.ap_type, 0.7 * o.aperture.value)
+    E['add_field'] = lambda o: o.add_field(y=1.2 * max(f.y for f in o.fields.fields))
+    E['add_wavelength'] = lambda o: o.add_wavelength(0.52, is_primary=True)
+    E['image-distance'] = lambda o: o.set_thickness(float(np.ravel(o.surface_group.get_thickness(o.surface_group.num_surfaces - 2))[0]) + 0.3,
+                                                    o.surface_group.num_surfaces - 2)
+    return E
+
+
+def run_edit_between(part, unit):
+    """(queries, edit e, query b) on one lens == (edit e, query b) on a lens nothing was asked of before the edit: whatever a
+    query leaves behind (cached rays, matrices, indices, pupils) must not survive an edit of the lens. `first` is one query or
+    'all' (every query of the alphabet asked once before the edit)."""
+    Q = ops()
+    E = edits(unit['variant'])
+    sp = lenses(unit['variant'])[unit['lens']]
+    a, e = unit['first'], unit['edit']
+    cold = LZ.build(sp)
+    E[e](cold)
+    want = {}
+    for b in Q:
+        try:
+            want[b] = blob(Q[b](cold, Caller()))
+        except Exception:        # the edited lens cannot answer this query at all: nothing to compare
+            part.count('query-undefined-on-edited-lens')
+    warm = LZ.build(sp)
+    part.states += 2
+    det0 = dict(lens=unit['lens'], before_edit=a, edit=e, variant=unit['variant'])
+    for q in (list(Q) if a == 'all' else [a]):
+        try:
+            Q[q](warm, Caller())
+        except Exception:
+            part.count('query-undefined-on-lens')
+        part.transitions += 1
+    E[e](warm)
+    part.transitions += 1
+    for b in Q:
+        if b not in want:
+            continue
+        got = blob(Q[b](warm, Caller()))
+        part.transitions += 2
+        part.evals += 1
+        if not blob_equal(got, want[b]):
+            part.violation(PID, 'independent-of-what-was-done-before', b, f'lens={unit["lens"]},edit-between={e}', dict(det0, query=b),
+                           observed='result differs from the same edit and call on a lens that was not queried before the edit',
+                           expected='bit-identical')
+        if blob_size(got) > 0:
+            part.outcome(unit['lens'], a, e, b)
+    part.sample(det0)
+
+
 def run_requery(part, unit):
     """Queries on ONE analysis object: each answer equals the answer of a fresh object, whatever was asked before."""
     ctor, qs = analysis_objects()[unit['object']]
@@ -269,6 +329,11 @@ def units(tier, variant):
         out.append(dict(kind='batch', lens=ln, variant=variant))
         for name in analysis_objects():
             out.append(dict(kind='requery', lens=ln, object=name, variant=variant))
+        if ln in ('plain', 'polarized', 'asphere-aperture'):
+            firsts = ['all'] + (SUB if (tier == 'thorough' or ln == 'asphere-aperture') else [])
+            for a in firsts:
+                for e in edits(variant):
+                    out.append(dict(kind='edit-between', lens=ln, first=a, edit=e, variant=variant))
         if tier == 'thorough':
             for a in SUB:
                 for b in SUB:
@@ -393,5 +458,5 @@ def run_batch(part, unit):
 
 def run_unit(unit):
     part = Part(unit)
-    dict(pairs=run_pairs, triples=run_triples, batch=run_batch, requery=run_requery)[unit['kind']](part, unit)
+    {'pairs': run_pairs, 'triples': run_triples, 'batch': run_batch, 'requery': run_requery, 'edit-between': run_edit_between}[unit['kind']](part, unit)
     return part
